@@ -55,12 +55,18 @@ type Session struct {
 	SetCtx     func(c interface{})                // installed by the harness: assigns the parser's Context field
 	NextCtx    func(cur interface{}) interface{}  // the value to store
 	Mutate     func(tok interface{})              // if set: every token argument is modified in place AFTER it was logged
+	NestAt     int                                // > 0: at this call the action runs ANOTHER parser of the same package to completion (Nested)
+	Nested     func()                             // installed by the harness
+	TokMethods func(tok interface{})              // if set: the convenience methods of every token argument are called (IDValue, Int64Value, ...)
 	Problems   []string                           // invariant violations noticed at call time
 	AfterFault int                                // calls made after the fault fired (must stay 0)
 }
 
 // Begin resets the per-operation state.
 func (s *Session) Begin(faultCall int, faultKind string) {
+	s.NestAt = 0
+	s.Nested = nil
+	s.TokMethods = nil
 	s.SwapAt = 0
 	s.SetCtx = nil
 	s.Mutate = nil
@@ -133,6 +139,21 @@ func (s *Session) call(ctx interface{}, withCtx bool, alt int, args []interface{
 		// the action replaces the parser's Context: later actions must see the new value
 		s.Ctx = s.NextCtx(s.Ctx)
 		s.SetCtx(s.Ctx)
+	}
+	if s.NestAt > 0 && s.Calls == s.NestAt && s.Nested != nil {
+		s.Nested() // e.g. an action that parses a quoted sub-document with a helper parser
+	}
+	if s.TokMethods != nil {
+		for _, a := range args {
+			if a == nil {
+				continue
+			}
+			if _, isNode := a.(*Node); !isNode {
+				if str, ok := s.Render(a); ok && strings.HasPrefix(str, "T<") {
+					s.TokMethods(a)
+				}
+			}
+		}
 	}
 	if s.Mutate != nil {
 		for _, a := range args {
